@@ -583,9 +583,13 @@ class SimEnv:
 
     _serial = 0
 
-    def __init__(self, tmpdir, run_id="run"):
+    def __init__(self, tmpdir, run_id="run", loglevel=None):
         self.tmpdir = tmpdir
         self.run_id = run_id
+        # the process' log verbosity is part of the simulated world (the package reads LOGLEVEL at import; a caller
+        # may have configured logging): "off" (the harness default), "INFO" or "DEBUG", with a null handler so
+        # that nothing is written anywhere
+        self.loglevel = loglevel or "off"
         self.uuid_counter = 0
         self.highs_on_path = False
         self.cbc_executable = True
@@ -600,6 +604,17 @@ class SimEnv:
     # -- context management -------------------------------------------------------------------
     def __enter__(self):
         self_check_attributes()
+        import logging
+
+        root = logging.getLogger()
+        self._saved_logging = (root.manager.disable, root.level, list(root.handlers))
+        if self.loglevel != "off":
+            for h in list(root.handlers):
+                root.removeHandler(h)
+            root.addHandler(logging.NullHandler())
+            root.setLevel(getattr(logging, self.loglevel))
+            logging.disable(logging.NOTSET)
+            events.fired("loglevel." + self.loglevel)
         self._saved = (
             pulp_core.shutil,
             pulp_core.uuid4,
@@ -635,6 +650,16 @@ class SimEnv:
         if tmp is not None:
             os.environ["TMP"] = tmp
         tempfile.tempdir = self._saved_tempdir
+        import logging
+
+        root = logging.getLogger()
+        disabled, level, handlers = self._saved_logging
+        for h in list(root.handlers):
+            root.removeHandler(h)
+        for h in handlers:
+            root.addHandler(h)
+        root.setLevel(level)
+        logging.disable(disabled)
         real_shutil.rmtree(self.tmpdir, ignore_errors=True)
         self.tmpdir = self.base_tmpdir
         return False
